@@ -214,8 +214,17 @@ impl CodeFormatter {
                 let token_type = std::mem::discriminant(token);
                 let prev_token_type = std::mem::discriminant(prev_token);
 
+                // Two statements may share a source line with nothing but blanks between them. The blanks are not kept,
+                // so the statements have to be told apart some other way (only a label keeps what follows it on its line).
+                let starts_on_new_line = token
+                    .trivia()
+                    .map(|t| t.iter().any(|t| matches!(t, Trivia::NewLine)))
+                    .unwrap_or_default();
+                let follows_label = matches!(prev_token, Token::Label { block: None, .. });
+
                 if (token_type == prev_token_type && newline_if_same)
                     || (token_type != prev_token_type && newline_if_diff)
+                    || (!starts_on_new_line && !follows_label)
                 {
                     self.push("\n");
                 }
